@@ -206,8 +206,8 @@ def gap_spectrum(draw, n):
 
 
 @st.composite
-def hermitian_gap_matrix(draw, nmax):
-    n = draw(st.integers(1, nmax))
+def hermitian_gap_matrix(draw, nmax, nmin=1):
+    n = draw(st.integers(nmin, nmax))
     lam, info = draw(gap_spectrum(n))
     if n >= 2 and draw(st.integers(0, 4)) == 0:
         # a "canonical" vector (all ones, e_1, e_n, alternating signs) is an EXACT-to-rounding eigenvector of a
@@ -232,8 +232,8 @@ def hermitian_gap_matrix(draw, nmax):
 
 
 @st.composite
-def hermitian_cases(draw, tier):
-    A, lam, info = draw(hermitian_gap_matrix(7))
+def hermitian_cases(draw, tier, size=None):
+    A, lam, info = draw(hermitian_gap_matrix(size[1], size[0]) if size else hermitian_gap_matrix(7))
     mult = draw(st.sampled_from([1, 1, 2, 5]))
     tol = draw(st.sampled_from([None, None, 1e-10, 1e-11, 1e-12]))
     return {"A": A, "lam": lam, "gen": info, "seed": draw(gen.seeds()), "mult": mult, "tol": tol}
@@ -273,8 +273,8 @@ ARB_PATTERNS = ("generic",) * 6 + ("int",) * 3 + ("pure_imag",) * 2 + ("sparse",
 
 
 @st.composite
-def arbitrary_matrix(draw, nmax):
-    n = draw(st.integers(1, nmax))
+def arbitrary_matrix(draw, nmax, nmin=1):
+    n = draw(st.integers(nmin, nmax))
     kind = draw(st.sampled_from(ARB_KINDS))
     A, _pat = draw(gen.qarray(n, n, draw(st.sampled_from(ARB_PATTERNS))))
     A = A.copy()
@@ -302,22 +302,23 @@ def arbitrary_matrix(draw, nmax):
 
 
 @st.composite
-def arbitrary_cases(draw, tier):
-    A, kind = draw(arbitrary_matrix(7))
+def arbitrary_cases(draw, tier, size=None):
+    A, kind = draw(arbitrary_matrix(size[1], size[0]) if size else arbitrary_matrix(7))
     mi = draw(st.sampled_from([None, 0, 1, 2, 3, 7, 30, 100]))
     tol = draw(st.sampled_from([None, None, 1e-10, 1e-6, 1e-13]))
     return {"A": A, "kind": kind, "seed": draw(gen.seeds()), "max_iterations": mi, "tol": tol}
 
 
 @st.composite
-def nh_cases(draw, tier):
+def nh_cases(draw, tier, size=None):
+    lo_, hi_ = size or (1, 6)
     which = draw(st.sampled_from(["hermitian_gap", "arbitrary", "arbitrary"]))
     if which == "hermitian_gap":
-        A, lam, info = draw(hermitian_gap_matrix(6))
+        A, lam, info = draw(hermitian_gap_matrix(hi_, lo_))
         kind = "hermitian_gap"
         mi = draw(st.sampled_from([None, 400, 1000]))
     else:
-        A, kind = draw(arbitrary_matrix(6))
+        A, kind = draw(arbitrary_matrix(hi_, lo_))
         mi = draw(st.sampled_from([1, 2, 5, 40, 300, 300, None]))
     return {"A": A, "kind": kind, "seed": draw(gen.seeds()), "arg_seed": draw(st.integers(0, 2 ** 31 - 1)),
             "max_iterations": mi,
@@ -582,6 +583,12 @@ PROPERTY = Property(
     clauses=[
         Clause("hermitian_gap", check_hermitian, strategy=hermitian_cases, budget={"quick": 2000, "thorough": 30000}),
         Clause("arbitrary", check_arbitrary, strategy=arbitrary_cases, budget={"quick": 2000, "thorough": 30000}),
+        Clause("hermitian_gap_moderate_size", check_hermitian, strategy=lambda tier: hermitian_cases(tier, size=(9, 20 if tier == "quick" else 40)),
+               budget={"quick": 40, "thorough": 400}, shrink=False),
+        Clause("arbitrary_moderate_size", check_arbitrary, strategy=lambda tier: arbitrary_cases(tier, size=(9, 20 if tier == "quick" else 40)),
+               budget={"quick": 40, "thorough": 400}, shrink=False),
+        Clause("nonhermitian_variant_moderate_size", check_nh, strategy=lambda tier: nh_cases(tier, size=(9, 16 if tier == "quick" else 24)),
+               budget={"quick": 24, "thorough": 240}, shrink=False),
         Clause("hermitian_gap_long_dimension", check_hermitian, strategy=long_hermitian_cases,
                budget={"quick": 16, "thorough": 160}, shrink=False),
         Clause("arbitrary_long_dimension", check_arbitrary, strategy=long_arbitrary_cases,
